@@ -55,10 +55,24 @@ def gen_ops(tier, rng):
 
 
 def leo_ops(tier, rng, seen):
-    return []
+    from .c04 import admissible
+    ops = []
+    pairs = [(d, p) for d in range(1, 256) for p in range(1, 256) if admissible(8, d, p)]
+    if tier == "quick":
+        keep = [(d, p) for (d, p) in pairs if d <= 5 and p <= 5]
+        keep += rng.sample(pairs, 200)
+        pairs = sorted(set(keep))
+    for (d, p) in pairs:
+        ops.append((f"gen leo8 {d} {p}" + (" dump" if d * p <= 64 else ""), {"cat": "leo8", "fam": "leo8", "d": d, "p": p}))
+    for (d, p) in [(2, 2), (3, 2), (5, 3), (8, 8), (10, 4), (257, 3), (300, 40)] + [(rng.randint(2, 100), rng.randint(2, 50)) for _ in range(20)]:
+        ops.append((f"gen leo16 {d} {p}", {"cat": "leo16", "fam": "leo16", "d": d, "p": p}))
+    return ops
 
 
 def flag_check(line, meta, flags):
+    if meta.get("fam") == "leo16":
+        # no GF(2^16) field in Lean: decided by the Lagrange closed form (l0) and by C05's reconstruction runs only
+        return "L1 schedule disagrees with the Lagrange closed form" if flags.get("l0") == "0" else None
     if flags.get("cert") != "1":
         return "certificate rejected the generator: not shown to be MDS"
     if flags.get("l0") == "0":
